@@ -175,6 +175,10 @@ fn alphabet_for(o: &Opts) -> Vec<Tok> {
             a.push(Tok::s(&format!("-{}{}{}", x, x, y)));
         }
     }
+    // an unknown word and an unknown flag whose bytes outnumber their characters by far (the
+    // message may suggest a similar name)
+    a.push(Tok::s("удалить-всё"));
+    a.push(Tok::s("--всё-сразу-и-быстро"));
     // items shaped like a short name with `=` whose name is a truncated multi-byte sequence
     for t in [&b"-\xe2=x"[..], b"-\xc3=", b"-\xf0\x9f=abc"] {
         a.push(Tok(t.to_vec()));
